@@ -155,6 +155,11 @@ def check(case):
                         cmpv('medium:height', pm.get('height', float('nan')), cm['height'], True)
                     if i < len(env['media']) - 1:
                         cmpv('medium:coord', pm.get('coord', float('nan')), cm['coord'], True)
+                if len(env['media']) > 1:
+                    want = 2 if env.get('boundary') == 'circular' else 1
+                    if rep['boundary'] != want:
+                        fails.append(('boundary-type', 'TYPE OF BOUNDARY printed as %r for a %s boundary' % (rep['boundary'], env.get('boundary'))))
+                    labels.append('boundary-' + str(env.get('boundary')) + ('-radials' if env.get('radials') else ''))
                 if env.get('radials'):
                     if rep['media'][0].get('nradials') != env['radials']['n']:
                         fails.append(('medium:radials', 'prints %r radials for %d' % (rep['media'][0].get('nradials'), env['radials']['n'])))
